@@ -293,9 +293,11 @@ def mon_C05(sc, trace):
     # phase 3: events
     it = 0
     aborted = False
+    ev_time, last_hook_time, hook_times = None, 0.0, []
     while i < len(B):
         t = B[i]
         if t[0] == "cb" and t[3] in ("timer", "packet", "telem"):
+            ev_time = fh(t[2]) if has(sc, "T") else None        # the time of the event being executed, as its callback saw it
             i = skip_acts(i + 1)
             continue
         if t[0] == "hafter":
@@ -303,6 +305,13 @@ def mon_C05(sc, trace):
                 if i < len(B) and B[i][0] == "hafter" and int(B[i][1]) == j:
                     if int(B[i][2]) != it:
                         v.append("C05: after-step hook of handler %d got iteration %s, expected %d" % (j, B[i][2], it))
+                    ht = fh(B[i][3])
+                    if ev_time is not None and ht != ev_time:
+                        v.append("C05: after-step hook of handler %d (iteration %d) got timestamp %r, the executed event's time is %r"
+                                 % (j, it, ht, ev_time))
+                    if ht < last_hook_time:
+                        v.append("C05: after-step hook of handler %d (iteration %d) got timestamp %r after %r" % (j, it, ht, last_hook_time))
+                    hook_times.append(ht)
                     i += 1
                 elif i < len(B) and B[i][0] == "assertfail":
                     break
@@ -310,6 +319,9 @@ def mon_C05(sc, trace):
                     v.append("C05: after-step hook of handler %d missing for iteration %d" % (j, it))
                     return v
             it += 1
+            ev_time = None
+            last_hook_time = max([last_hook_time] + hook_times)
+            del hook_times[:]
             continue
         if t[0] == "assertfail":
             aborted = True
@@ -469,14 +481,16 @@ def mon_C03(sc, trace):
                 pend[n] = [e for e in pend[n] if e[2] != name]
             elif t[0] == "cb" and t[3] == "timer" and t[4].isdigit():
                 n, tm, name = int(t[1]), fh(t[2]), int(t[4])
-                same = sorted(e for e in pend[n] if e[0] == tm)
-                if same:
-                    if same[0][2] != name and any(e[2] == name for e in same):
-                        v.append("C03: node %d timer %d fired at %r before timer %d which was set earlier for the same instant"
-                                 % (n, name, tm, same[0][2]))
-                    hit = next((e for e in same if e[2] == name), None)
-                    if hit is not None:
-                        pend[n].remove(hit)
+                cands = [e for e in pend[n] if e[2] == name]
+                if cands:
+                    # the request this callback answers: the one for exactly this time, else (a timer that fired
+                    # off its requested time, which C01/C07 report) the one requested for the nearest time
+                    hit = min(cands, key=lambda e: (e[0] != tm, abs(e[0] - tm), e[1]))
+                    earlier = sorted(e for e in pend[n] if e[0] == hit[0] and e[1] < hit[1])
+                    if earlier:
+                        v.append("C03: node %d timer %d fired at %r before timer %d which was set earlier for the same instant %r"
+                                 % (n, name, tm, earlier[0][2], hit[0]))
+                    pend[n].remove(hit)
     return v
 
 
@@ -524,7 +538,7 @@ def mon_C07(sc, trace):
                     v.append("C07: node %d cancel_timer(%s) raised %s" % (n, t[3], t[-1]))
                 pend[n] = [e for e in pend[n] if e[0] != int(t[3])]
     exhausted = (P and P[-1][0] == "end" and P[-1][1] == "done" and sc["dur"] is None and sc["maxit"] is None
-                 and sc["drv"][0] == "run")
+                 and sc["drv"][0] in ("run", "drive"))
     if exhausted:
         fin = next((i for i, t in enumerate(P) if t[0] == "cb" and t[3] == "finish"), len(P))
         pend2 = defaultdict(list)
@@ -949,9 +963,14 @@ def mon_C18(sc, trace):
     j = recs(sc)[0]
     got_fail = None
     steps = 0
+    finishing = False
     for idx, t in enumerate(P):
+        if t[0] == "cb" and t[3] == "finish":
+            finishing = True              # no event is executed from here on: nothing below may count as "after an executed event"
         if t[0] == "act" and t[2] == "flag" and t[-1] == "ok":
             flag[int(t[1])] = t[3] == "1"
+        elif t[0] == "hafter" and int(t[1]) == j and finishing:
+            continue
         elif t[0] == "hafter" and int(t[1]) == j:
             steps += 1
             if expected_fail is not None:
@@ -994,6 +1013,9 @@ def mon_C18(sc, trace):
         fin_seen = any(t[0] == "cb" and t[3] == "finish" for t in P[:got_fail[0]])
         if not fin_seen and nn > 0:
             v.append("C18: assertion %s failed although no always-assertion is violated at that point" % got_fail[1])
+            return v
+        if 0 <= i < len(asserts) and asserts[i][0] in ("AP", "ASIM"):
+            v.append("C18: always-assertion %d failed during finalisation although its predicate held after every executed event" % i)
             return v
         want = None
         for i2, (k, a) in enumerate(asserts):
